@@ -74,4 +74,12 @@ PROP = {'title': 'Safe API is total: no UB, crash or hang; failure only via opti
                  'points that reach fcppt::impl::codecvt in the narrow-string configuration',
                  'a user exception (throwing element type, comparison, callback, operator>>) must propagate unchanged with balanced construction / '
                  'destruction counts; after a throwing pop the container holds the original or the original minus the popped element',
-                 'shards in which a defect shows as a hang use a 5 s watchdog and stop after 3 restarts (then reported as not exhaustive)']}
+                 'shards in which a defect shows as a hang use a 10 s watchdog and stop after 3 restarts (then reported as not exhaustive)',
+                 "information only (counters['info:<sig>'], never a verdict) because neither the property text nor the documentation nor the "
+                 'signature promises them: the values returned by the undocumented internal helpers options::impl::is_flag and next_arg (their '
+                 'totality is a verdict); create_directory / create_directories_recursive reporting an error although the path is a directory '
+                 'afterwards; math::clamp<float/double> with a NaN bound; widen/narrow results with a facet that answers `partial` although input '
+                 'and room were left or that understates max_length(); the state a container is left in after its element type threw during pop_back '
+                 '/ pop_front; whether array::from_range copies elements before it compares the size',
+                 'path results of replace_extension / remove_extension / strip_prefix are compared up to redundant separators (lexically_normal); '
+                 'io::read_chars(stream, 0) has no expected result; integer-limit strings are run through the integer grammars for totality only']}
